@@ -12,6 +12,13 @@ on a copy is harmless).  Direct checks of the statement on the
 real results (round trip, adjacency, refinement, end points, classical curve for
 n = 2) run on the same inputs, also at orders the kernel-evaluated `_upto`
 theorems do not reach.
+
+Argument types and provenances (the values never depend on them): the vectorised AND the scalar
+entry points on every integer dtype int8..uint64 (uint64 on both sides of n*p = 53, the bits a
+float64 holds exactly), p and n as numpy integers, and the two round trips composed on the
+library's OWN return values handed on exactly as returned (vector>vector, two laps, element of a
+result > scalar, scalar > scalar, scalars gathered in an array > vector, row of a result > scalar)
+for cells / distances held in int64, uint64, int32, uint32 at n*p in {20..62}.
 """
 import itertools
 import os
@@ -376,7 +383,7 @@ def batch_order_checks(mr, label, p, n, hs, vec, cells, dvec, states):
 # --------------------------------------------------------------------------
 # dtypes and memory layouts of the vectorised entry points
 # --------------------------------------------------------------------------
-DTYPES = ['int8', 'uint8', 'int16', 'uint16', 'int32', 'uint32', 'int64']
+DTYPES = ['int8', 'uint8', 'int16', 'uint16', 'int32', 'uint32', 'int64', 'uint64']
 LAYOUTS = ['C', 'F', 'colview', 'rowview', 'negstride', 'list']
 # (p, n) per coordinate dtype: the coordinates fit, n*p exceeds the dtype's bits where possible
 DFC_ORDERS = {'int8': [(7, 2), (7, 3), (5, 2), (7, 8), (3, 2)],
@@ -385,12 +392,17 @@ DFC_ORDERS = {'int8': [(7, 2), (7, 3), (5, 2), (7, 8), (3, 2)],
               'uint16': [(16, 2), (16, 3), (9, 2), (11, 2)],
               'int32': [(31, 2), (16, 2), (17, 2), (20, 3), (11, 3), (15, 2)],
               'uint32': [(31, 2), (16, 2), (17, 2), (20, 3), (12, 3)],
-              'int64': [(31, 2), (20, 3), (10, 2), (62, 1)]}
+              'int64': [(31, 2), (20, 3), (10, 2), (62, 1)],
+              # both sides of the 53 bits a float64 holds exactly: n*p = 52 | 54, 51 | 54, 53 | 54
+              'uint64': [(31, 2), (27, 2), (26, 2), (20, 3), (18, 3), (17, 3), (62, 1), (54, 1), (53, 1),
+                         (10, 2), (15, 4)]}
 # (p, n) per distance dtype: 2^(np) - 1 fits
 CFD_ORDERS = {'int8': [(7, 1), (3, 2), (2, 3)], 'uint8': [(8, 1), (4, 2), (2, 4)],
               'int16': [(15, 1), (7, 2), (5, 3)], 'uint16': [(16, 1), (8, 2), (4, 4)],
               'int32': [(31, 1), (15, 2), (10, 3)], 'uint32': [(32, 1), (16, 2), (8, 4)],
-              'int64': [(62, 1), (31, 2), (20, 3)]}
+              'int64': [(62, 1), (31, 2), (20, 3)],
+              'uint64': [(62, 1), (54, 1), (53, 1), (31, 2), (27, 2), (26, 2), (20, 3), (18, 3), (17, 3),
+                         (10, 2), (15, 4)]}
 
 
 def lay_out(a, layout):
@@ -434,6 +446,39 @@ def call_vectorised(direction, p, n, dtype, layout, inputs):
     same = bool((np.array(obj) == snap).all())
     return [[int(x) for x in row] for row in r.tolist()] if r.ndim == 2 else [int(x) for x in r.tolist()], \
         None, str(r.dtype), same
+
+
+def as_int(x):
+    """a returned scalar as an exact Python int; None when it is not an integer value (a float such
+    as 4.611686018427388e+18 is converted exactly, so a rounded distance shows as a wrong value)"""
+    if isinstance(x, (bool, np.bool_)):
+        return None
+    if isinstance(x, (int, np.integer)):
+        return int(x)
+    if isinstance(x, (float, np.floating)) and np.isfinite(x) and float(x) == int(x):
+        return int(x)
+    return None
+
+
+def call_scalar(direction, p, n, dtype, inputs):
+    """the scalar entry points on inputs of a given integer type: distance_from_coordinate on a
+    1-d array of that dtype (a private copy per cell), coordinate_from_distance on a numpy scalar
+    of that type: (values [None = not an integer value], error or None, type names of the results)"""
+    H = U.hilbert_mod()
+    vals, names = [], set()
+    try:
+        for x in inputs:
+            if direction == 'dfc':
+                r = H.distance_from_coordinate(p, np.array(x, dtype=dtype))
+                names.add(type(r).__name__)
+                vals.append(as_int(r))
+            else:
+                r = H.coordinate_from_distance(p, n, np.dtype(dtype).type(x))
+                names.add(type(r).__name__)
+                vals.append([as_int(v) for v in r])
+    except Exception as e:
+        return None, type(e).__name__, sorted(names)
+    return vals, None, sorted(names)
 
 
 def impl_dtypes(seed, dtypes=None, per=48):
@@ -490,6 +535,23 @@ def impl_dtypes(seed, dtypes=None, per=48):
                                                       'from the scalar entry point',
                              {'dir': 'dtype', 'entry': 'dfc', 'p': p, 'n': n, 'dtype': dt, 'layout': 'C',
                               'cells': [cells[0]], 'vector': got if err is None else err, 'scalar': dsca[0]})
+            # the scalar entry point on a 1-d array of this dtype
+            sub = cells[:per]
+            got, err, names = call_scalar('dfc', p, n, dt, sub)
+            nev += len(sub)
+            mr.count(f'dtype:dfc:{dt}:scalar')
+            meta = {'dir': 'dtype', 'form': 'scalar', 'entry': 'dfc', 'p': p, 'n': n, 'dtype': dt,
+                    'layout': 'C'}
+            if err is not None:
+                mr.violation(f'dtype-raises:dfc:{err}',
+                             f'distance_from_coordinate raised {err} for a {dt} coordinate array',
+                             {**meta, 'cells': sub[:20]})
+            elif got != dsca[:len(sub)]:
+                i = next(i for i in range(len(sub)) if got[i] != dsca[i])
+                mr.violation('scalar-dtype:dfc',
+                             f'distance_from_coordinate on a {dt} coordinate array differs from the same '
+                             f'cell held in int64 (returned {"/".join(names)})',
+                             {**meta, 'cells': [sub[i]], 'typed': got[i], 'int64': dsca[i]})
         for p, n in CFD_ORDERS[dt]:
             if not guard(p, n):
                 continue
@@ -522,8 +584,241 @@ def impl_dtypes(seed, dtypes=None, per=48):
                                  {**meta, 'hs': [hs[i]], 'vector': got[i], 'scalar': sca[i],
                                   'result_dtype': rdt})
                     break
+            # the scalar entry point on a numpy scalar of this type
+            sub = hs[:per]
+            got, err, names = call_scalar('cfd', p, n, dt, sub)
+            nev += len(sub)
+            mr.count(f'dtype:cfd:{dt}:scalar')
+            meta = {'dir': 'dtype', 'form': 'scalar', 'entry': 'cfd', 'p': p, 'n': n, 'dtype': dt,
+                    'layout': 'C'}
+            if err is not None:
+                mr.violation(f'dtype-raises:cfd:{err}',
+                             f'coordinate_from_distance raised {err} for a numpy {dt} distance',
+                             {**meta, 'hs': sub[:20]})
+            elif got != sca[:len(sub)]:
+                i = next(i for i in range(len(sub)) if got[i] != sca[i])
+                mr.violation('scalar-dtype:cfd',
+                             f'coordinate_from_distance on a numpy {dt} distance differs from the same '
+                             f'distance given as a Python int',
+                             {**meta, 'hs': [sub[i]], 'typed': got[i], 'int64': sca[i]})
+    nev += order_argument_types(mr, rng)
     return {'cfd': cfd_out, 'dfc': dfc_out, 'violations': mr.violations, 'hist': mr.hist,
             'evaluations': nev}
+
+
+def order_argument_types(mr, rng):
+    """the order p and the dimension n given as numpy integers of several widths (all four entry
+    points): the results must be those for Python ints"""
+    H = U.hilbert_mod()
+    nev = 0
+    for p, n in ((31, 2), (18, 3)):
+        top = 1 << (n * p)
+        hs = interesting_distances(rng, p, n, 8)[:24] + [rng.randrange(top) for _ in range(8)]
+        cells = interesting_cells(rng, p, n, 8)[:24] + [[rng.randrange(1 << p) for _ in range(n)]
+                                                       for _ in range(8)]
+        ref_c = U.cfd_vector(p, n, hs)
+        ref_d, _ = U.dfc_vector(p, cells)
+        for tn in ('int64', 'int32', 'uint8', 'uint64'):
+            T = np.dtype(tn).type
+            mr.count(f'order-type:{tn}')
+            meta = {'dir': 'argtype', 'p': p, 'n': n, 'type': tn}
+            try:
+                got_c = [[as_int(x) for x in row] for row in
+                         np.asarray(H.coordinates_from_distances(T(p), T(n), np.array(hs, dtype=np.int64))).tolist()]
+                got_cs = [[as_int(x) for x in H.coordinate_from_distance(T(p), T(n), h)] for h in hs[:8]]
+                got_d = [as_int(x) for x in
+                         np.asarray(H.distances_from_coordinates(T(p), np.array(cells, dtype=np.int64))).tolist()]
+                got_ds = [as_int(H.distance_from_coordinate(T(p), np.array(c, dtype=np.int64))) for c in cells[:8]]
+            except Exception as e:
+                mr.violation(f'argtype-raises:{type(e).__name__}',
+                             f'an entry point raised {type(e).__name__} when p, n are numpy {tn} scalars',
+                             {**meta, 'hs': hs[:8], 'cells': cells[:8]})
+                continue
+            nev += len(hs) + len(cells) + 16
+            if got_c != ref_c or got_cs != ref_c[:8]:
+                i = next((i for i in range(len(hs)) if got_c[i] != ref_c[i]), 0)
+                mr.violation('argtype:cfd', f'coordinate(s)_from_distance(s) with p, n given as numpy {tn} '
+                                            'differs from p, n given as Python ints',
+                             {**meta, 'hs': [hs[i]], 'typed': got_c[i], 'python_int': ref_c[i]})
+            if got_d != ref_d or got_ds != ref_d[:8]:
+                i = next((i for i in range(len(cells)) if got_d[i] != ref_d[i]), 0)
+                mr.violation('argtype:dfc', f'distance(s)_from_coordinate(s) with p given as numpy {tn} '
+                                            'differs from p given as a Python int',
+                             {**meta, 'cells': [cells[i]], 'typed': got_d[i], 'python_int': ref_d[i]})
+    return nev
+
+
+# --------------------------------------------------------------------------
+# compositions of the entry points on the library's OWN return values, passed on exactly as they
+# were returned (no conversion to Python ints / int64 in between): the two round trips of the
+# statement as a caller writes them, decode(encode(cells)) and encode(decode(distances)), on both
+# sides of n*p = 53 (what a float64 holds exactly) and up to the guard n*p = 62
+# --------------------------------------------------------------------------
+COMPOSE_ORDERS = [(26, 2), (27, 2), (28, 2), (31, 2), (10, 2), (16, 2), (17, 3), (18, 3), (20, 3),
+                  (53, 1), (54, 1), (62, 1), (15, 4), (12, 5), (10, 6), (2, 31), (1, 62)]
+COMPOSE_DTYPES = ['int64', 'uint64', 'int32', 'uint32']
+CELL_ROUTES = ['vector>vector', 'vector>vector>vector>vector', 'vector>element>scalar', 'scalar>scalar',
+               'scalars>array>vector']
+DIST_ROUTES = ['vector>vector', 'vector>row>scalar', 'scalar>array>scalar', 'scalar>list>scalar']
+SCALAR_SUB = 24
+
+
+def ints(a):
+    a = np.asarray(a)
+    if a.ndim == 2:
+        return [[as_int(x) for x in row] for row in a.tolist()]
+    return [as_int(x) for x in a.tolist()]
+
+
+def compose_cells(route, p, n, dtype, cells):
+    """cells (held in `dtype`) -> distances -> cells through `route`; every intermediate value is
+    handed on as returned.  (distances as ints, cells that came back, description of the
+    intermediate objects)"""
+    H = U.hilbert_mod()
+    a = np.array(cells, dtype=dtype).reshape(len(cells), n)
+    if route == 'vector>vector':
+        d = H.distances_from_coordinates(p, a)
+        back = H.coordinates_from_distances(p, n, d)
+        return ints(d), ints(back), f'distances {np.asarray(d).dtype}'
+    if route == 'vector>vector>vector>vector':
+        d = H.distances_from_coordinates(p, a)
+        back = H.coordinates_from_distances(p, n, d)
+        d2 = H.distances_from_coordinates(p, back)
+        back2 = H.coordinates_from_distances(p, n, d2)
+        return ints(d2), ints(back2), f'distances {np.asarray(d).dtype}, cells {np.asarray(back).dtype}'
+    if route == 'vector>element>scalar':
+        d = H.distances_from_coordinates(p, a)
+        back = [[as_int(x) for x in H.coordinate_from_distance(p, n, d[k])] for k in range(len(cells))]
+        return ints(d), back, f'distances {np.asarray(d).dtype}'
+    if route == 'scalar>scalar':
+        ds = [H.distance_from_coordinate(p, a[k].copy()) for k in range(len(cells))]
+        back = [[as_int(x) for x in H.coordinate_from_distance(p, n, d)] for d in ds]
+        return [as_int(d) for d in ds], back, 'distance ' + '/'.join(sorted({type(d).__name__ for d in ds}))
+    if route == 'scalars>array>vector':
+        ds = np.array([H.distance_from_coordinate(p, a[k].copy()) for k in range(len(cells))])
+        back = H.coordinates_from_distances(p, n, ds)
+        return ints(ds), ints(back), f'distances {ds.dtype}'
+    raise ValueError(route)
+
+
+def compose_distances(route, p, n, dtype, hs):
+    """distances (held in `dtype`) -> cells -> distances through `route`"""
+    H = U.hilbert_mod()
+    h = np.array(hs, dtype=dtype)
+    if route == 'vector>vector':
+        c = H.coordinates_from_distances(p, n, h)
+        mid = ints(c)
+        d = H.distances_from_coordinates(p, c)
+        return mid, ints(d), f'cells {np.asarray(c).dtype}'
+    if route == 'vector>row>scalar':
+        c = H.coordinates_from_distances(p, n, h)
+        mid = ints(c)
+        d = [as_int(H.distance_from_coordinate(p, c[k])) for k in range(len(hs))]
+        return mid, d, f'cells {np.asarray(c).dtype}'
+    if route in ('scalar>array>scalar', 'scalar>list>scalar'):
+        mid, d = [], []
+        for k in range(len(hs)):
+            cs = H.coordinate_from_distance(p, n, h[k])
+            mid.append([as_int(x) for x in cs])
+            d.append(as_int(H.distance_from_coordinate(p, np.array(cs) if route == 'scalar>array>scalar' else cs)))
+        return mid, d, 'cell list'
+    raise ValueError(route)
+
+
+def impl_compose(seed, per=48):
+    rng = random.Random(seed)
+    mr = MiniRep(seed)
+    cfd_out, dfc_out, nev = [], [], 0
+    for p, n in COMPOSE_ORDERS:
+        if not guard(p, n):
+            continue
+        side, top = 1 << p, 1 << (n * p)
+        cells = interesting_cells(rng, p, n, per)[:per * 3]
+        hs = interesting_distances(rng, p, n, per)[:per * 3]
+        # reference values through int64 / Python ints; the caller compares them with the model
+        ref_d, _ = U.dfc_scalar(p, cells)
+        ref_c = U.cfd_scalar(p, n, hs)
+        dfc_out.append((p, n, cells, ref_d))
+        cfd_out.append((p, n, hs, ref_c))
+        for dt in COMPOSE_DTYPES:
+            if side - 1 > np.iinfo(dt).max:
+                continue
+            for route in CELL_ROUTES:
+                sub = cells if route.startswith('vector>vector') else cells[:SCALAR_SUB]
+                meta = {'dir': 'compose', 'kind': 'cells', 'route': route, 'dtype': dt, 'p': p, 'n': n}
+                mr.count(f'compose:cells:{dt}:{route}')
+                try:
+                    mid, back, desc = compose_cells(route, p, n, dt, sub)
+                except Exception as e:
+                    mr.violation(f'compose-raises:{type(e).__name__}',
+                                 f'cells ({dt}) -> distances -> cells [{route}] raised {type(e).__name__}: '
+                                 f'{str(e).splitlines()[0][:160] if str(e) else ""}',
+                                 {**meta, 'cells': sub[:8]})
+                    continue
+                nev += 2 * len(sub)
+                if back != sub:
+                    i = next(i for i in range(len(sub)) if back[i] != sub[i])
+                    mr.violation('compose-roundtrip:coordinate',
+                                 f'coordinate -> distance -> coordinate on the library\'s own return values '
+                                 f'[{route}; cells {dt}, {desc}] is not the identity',
+                                 {**meta, 'cells': [sub[i]], 'distance': mid[i], 'back': back[i]})
+                elif mid != ref_d[:len(sub)]:
+                    i = next(i for i in range(len(sub)) if mid[i] != ref_d[i])
+                    mr.violation('compose-value:distance',
+                                 f'the distance inside the round trip [{route}; cells {dt}, {desc}] differs '
+                                 f'from the distance of the same cell held in int64',
+                                 {**meta, 'cells': [sub[i]], 'distance': mid[i], 'int64': ref_d[i]})
+        for dt in ('int64', 'uint64', 'uint32'):
+            hh = [h for h in hs if h <= np.iinfo(dt).max]
+            rc = [c for h, c in zip(hs, ref_c) if h <= np.iinfo(dt).max]
+            if len(hh) < 8:
+                continue
+            for route in DIST_ROUTES:
+                sub = hh if route == 'vector>vector' else hh[:SCALAR_SUB]
+                meta = {'dir': 'compose', 'kind': 'distances', 'route': route, 'dtype': dt, 'p': p, 'n': n}
+                try:
+                    mid, back, desc = compose_distances(route, p, n, dt, sub)
+                except Exception as e:
+                    if route == 'scalar>list>scalar':
+                        # a Python list is outside the documented input (1-d ndarray) of distance_from_coordinate
+                        mr.count(f'optional:dfc_list_not_accepted({type(e).__name__})')
+                        continue
+                    mr.violation(f'compose-raises:{type(e).__name__}',
+                                 f'distances ({dt}) -> cells -> distances [{route}] raised {type(e).__name__}: '
+                                 f'{str(e).splitlines()[0][:160] if str(e) else ""}',
+                                 {**meta, 'hs': sub[:8]})
+                    continue
+                mr.count(f'compose:distances:{dt}:{route}')
+                nev += 2 * len(sub)
+                if back != sub:
+                    i = next(i for i in range(len(sub)) if back[i] != sub[i])
+                    mr.violation('compose-roundtrip:distance',
+                                 f'distance -> coordinate -> distance on the library\'s own return values '
+                                 f'[{route}; distances {dt}, {desc}] is not the identity',
+                                 {**meta, 'hs': [sub[i]], 'coord': mid[i], 'back': back[i]})
+                elif mid != rc[:len(sub)]:
+                    i = next(i for i in range(len(sub)) if mid[i] != rc[i])
+                    mr.violation('compose-value:coordinate',
+                                 f'the cell inside the round trip [{route}; distances {dt}] differs from the '
+                                 f'cell of the same distance given as a Python int',
+                                 {**meta, 'hs': [sub[i]], 'coord': mid[i], 'python_int': rc[i]})
+    return {'cfd': cfd_out, 'dfc': dfc_out, 'violations': mr.violations, 'hist': mr.hist,
+            'evaluations': nev}
+
+
+def impl_argtypes(seed):
+    mr = MiniRep(seed)
+    order_argument_types(mr, random.Random(seed))
+    return mr.violations
+
+
+def compose_one(kind, route, p, n, dtype, inputs):
+    """replay helper: one composition, exceptions reported as text"""
+    try:
+        f = compose_cells if kind == 'cells' else compose_distances
+        return f(route, p, n, dtype, inputs)
+    except Exception as e:
+        return None, None, f'raised {type(e).__name__}: {str(e).splitlines()[0][:300] if str(e) else ""}'
 
 
 def impl_samples():
@@ -533,7 +828,8 @@ def impl_samples():
 
 
 IMPL_TABLE = {'impl_item': impl_item, 'impl_samples': impl_samples, 'impl_dtypes': impl_dtypes,
-              'call_vectorised': call_vectorised}
+              'call_vectorised': call_vectorised, 'call_scalar': call_scalar, 'impl_compose': impl_compose,
+              'compose_one': compose_one, 'impl_argtypes': impl_argtypes}
 
 
 def merge(rep, out):
@@ -553,8 +849,12 @@ def run(rep):
                 '62 (n=1) and for n in {4,5,6,7,10,15,31,62}; each input goes through the scalar and the '
                 'vectorised entry point; the vectorised entry points additionally get every grid in six fixed '
                 'orders, every cell followed by its in-place transposed state, repeated / reversed distances, '
-                'and inputs of dtype int8..uint32, int64 in C / F / strided / negative-stride layouts and as '
-                'Python lists at orders where n*p exceeds the dtype; batches of %d inputs are one kernel-evaluated case; '
+                'and inputs of dtype int8..uint32, int64, uint64 in C / F / strided / negative-stride layouts and as '
+                'Python lists at orders where n*p exceeds the dtype (uint64: n*p on both sides of 53); the scalar '
+                'entry points on 1-d arrays / numpy scalars of each of these dtypes; p, n as numpy int64 / int32 / '
+                'uint8 / uint64; both round trips composed on the library\'s own return values handed on unconverted '
+                '(vector>vector, two laps, element>scalar, scalar>scalar, scalars>array>vector, row>scalar; cells and '
+                'distances held in int64 / uint64 / int32 / uint32; n*p = 20..62 incl. 52|54, 51|54, 53|54); batches of %d inputs are one kernel-evaluated case; '
                 'non-trivial = a distinct (direction, p, n, input) with p >= 2; '
                 'evaluations = inputs x entry points' % BATCH)
     runner = U.ImplRunner(IMPL_TABLE)
@@ -562,6 +862,9 @@ def run(rep):
     runner_dt = U.ImplRunner(IMPL_TABLE)
     t_dt = time.time()
     runner_dt.submit('impl_dtypes', (rep.seed, None, 48 if tier == 'quick' else 400))
+    # the compositions on the library's own return values: a third child
+    runner_cp = U.ImplRunner(IMPL_TABLE)
+    runner_cp.submit('impl_compose', (rep.seed + 7, 48 if tier == 'quick' else 400))
     cfd_cases, cfd_res, cfd_meta = [], [], []
     dfc_cases, dfc_res, dfc_meta = [], [], []
     for label, p, n, hs, cells in plan(rep, tier):
@@ -656,9 +959,9 @@ def run(rep):
     cfd_cases, cfd_res, cfd_meta = [], [], []
     dfc_cases, dfc_res, dfc_meta = [], [], []
     # dtypes / memory layouts of the vectorised entry points
-    if True:
+    for rn, what in ((runner_dt, 'dtype sweep'), (runner_cp, 'compositions')):
         try:
-            out = runner_dt.collect(max(5.0, deadline(200000) - (time.time() - t_dt)))
+            out = rn.collect(max(5.0, deadline(200000) - (time.time() - t_dt)))
             merge(rep, out)
             for p, n, hs, sca in out['cfd']:
                 cfd_cases.append((C.Nat(p), C.Nat(n), U.nlist(hs)))
@@ -669,12 +972,12 @@ def run(rep):
                 dfc_res.append((U.nlist(dsca), None))
                 dfc_meta.append((p, n, cells, dsca, None))
         except U.ImplHang as e:
-            rep.violation('impl-hangs', f'the vectorised entry points did not return on the dtype sweep ({e})',
-                          {'dir': 'hang', 'p': 7, 'n': 2, 'hs': [], 'cells': [], 'label': 'dtypes'})
+            rep.violation('impl-hangs', f'the entry points did not return on the {what} ({e})',
+                          {'dir': 'hang', 'p': 7, 'n': 2, 'hs': [], 'cells': [], 'label': what})
         except U.ImplCrash as e:
-            rep.violation('impl-crashes', f'the dtype sweep failed: {e}',
-                          {'dir': 'hang', 'p': 7, 'n': 2, 'hs': [], 'cells': [], 'label': 'dtypes'})
-        runner_dt.close()
+            rep.violation('impl-crashes', f'the {what} failed: {e}',
+                          {'dir': 'hang', 'p': 7, 'n': 2, 'hs': [], 'cells': [], 'label': what})
+        rn.close()
     compare()
     ncases += len(cfd_cases) + len(dfc_cases)
     rep.extra['kernel_cases'] = ncases
@@ -730,6 +1033,50 @@ def replay(rep, rp):
     hs = [int(h) for h in rp.get('hs', [])]
     cells = [[int(x) for x in c] for c in rp.get('cells', [])]
     runner = U.ImplRunner(IMPL_TABLE)
+    if rp.get('dir') == 'compose':
+        kind, route, dt = rp['kind'], rp['route'], rp['dtype']
+        inputs = cells if kind == 'cells' else hs
+        try:
+            mid, back, desc = runner.call('compose_one', (kind, route, p, n, dt, inputs), deadline(10))
+        except (U.ImplHang, U.ImplCrash) as e:
+            print('the implementation does not return / failed:', e)
+            return False
+        finally:
+            runner.close()
+        print(f'{kind} held in {dt}, route {route} ({desc}):', inputs, '->', mid, '->', back)
+        ok = back == inputs
+        # the intermediate values and the int64 path: the ordinary checks on the same inputs
+        sub = dict(rp, dir='dfc' if kind == 'cells' else 'cfd')
+        ok2 = replay(rep, sub)
+        return ok and ok2
+    if rp.get('dir') == 'argtype':
+        print('p, n as numpy', rp.get('type'), '- rerun of the argument-type block:')
+        try:
+            out = runner.call('impl_argtypes', (1,), deadline(10))
+        except (U.ImplHang, U.ImplCrash) as e:
+            print('the implementation does not return / failed:', e)
+            return False
+        finally:
+            runner.close()
+        for sig, what, r in out:
+            print(' ', sig, '-', what, r)
+        return not out
+    if rp.get('dir') == 'dtype' and rp.get('form') == 'scalar':
+        entry, dt = rp['entry'], rp['dtype']
+        inputs = cells if entry == 'dfc' else hs
+        try:
+            got, err, names = runner.call('call_scalar', (entry, p, n, dt, inputs), deadline(10))
+            ref, _, _ = runner.call('call_scalar', (entry, p, n, 'int64', inputs), deadline(10))
+        except (U.ImplHang, U.ImplCrash) as e:
+            print('the implementation does not return / failed:', e)
+            return False
+        finally:
+            runner.close()
+        print(f'scalar {entry} on {dt}:', got if err is None else 'raised ' + err, 'returned', names,
+              '| on int64:', ref)
+        ok = err is None and got == ref
+        ok2 = replay(rep, {**rp, 'dir': entry})
+        return ok and ok2
     if rp.get('dir') == 'dtype':
         entry, dt, layout = rp['entry'], rp['dtype'], rp['layout']
         inputs = cells if entry == 'dfc' else hs
